@@ -56,6 +56,11 @@ func (self ValueObject) DisplayFlat() (string, *VmInterrupt) {
 }
 
 func (self ValueObject) IsEqual(other Value) (bool, *VmInterrupt) {
+	// values of different kinds may meet where the static type is `any` (inside an option, an any-object)
+	if other.Kind() != self.Kind() {
+		return false, nil
+	}
+
 	otherObj := other.(ValueObject)
 
 	// both objects need to have the same set of keys
